@@ -13,28 +13,29 @@ import BitstringModel.Proofs.C03Byteswap
 
 namespace BM.C03
 open BM
+open Byteswap
 
 /-! ### byte reversal -/
 
 theorem revBytes_length (b : Bits) : (revBytes b).length = b.length := by
-  sorry
+  exact Byteswap.revBytes_length b
 
 /-- `revBytes` moves whole bytes: the first byte goes last. -/
 theorem revBytes_append (a b : Bits) (ha : a.length = 8) : revBytes (a ++ b) = revBytes b ++ a := by
-  sorry
+  exact Byteswap.revBytes_append a b ha
 
 theorem revBytes_involutive (b : Bits) (h : 8 ∣ b.length) : revBytes (revBytes b) = b := by
-  sorry
+  exact Byteswap.revBytes_involutive b h
 
 /-- Bit `i` of byte `j` goes to bit `i` of byte `m-1-j` (for `m` whole bytes). -/
 theorem revBytes_getElem (b : Bits) (m : Nat) (h : b.length = 8 * m) (j i : Nat) (hj : j < m) (hi : i < 8) :
     (revBytes b)[8 * (m - 1 - j) + i]? = b[8 * j + i]? := by
-  sorry
+  exact Byteswap.revBytes_getElem b m h j i hj hi
 
 /-- `_reversebytes(s, e)` on a whole-byte range inside the data is the splice of the byte-reversed range. -/
 theorem reversebytes_in_range (l : Bits) (s e : Nat) (hse : s ≤ e) (he : e ≤ l.length) (h8 : 8 ∣ e - s) :
     Alg._reversebytes l s e = .ok (l.take s ++ revBytes (slc l s e) ++ l.drop e) := by
-  sorry
+  exact Byteswap.reversebytes_in_range l s e hse he h8
 
 /-! ### format strings (shared grammar of SPEC and ALG; these pin it to utils.BYTESWAP_STRUCT_PACK_RE / PACK_CODE_SIZE) -/
 
@@ -52,7 +53,7 @@ theorem parseFmt_examples :
 theorem byteswap_eq_spec_partial (l : Bits) (f : Fmt) (s e : Option Int) (rep : Bool)
     (h : byteswapNoRepeatPastEnd l f s e rep = false) :
     Alg.byteswap l f s e rep = Spec.byteswap l f s e rep := by
-  sorry
+  exact Byteswap.alg_byteswap_eq l f s e rep h
 
 /-- 0x010203 .byteswap(2, 0, 8, repeat=False) swaps bytes 0–1 although `end = 8`; 17 bits .byteswap(3, repeat=False)
     grows to 24 bits. -/
@@ -61,17 +62,17 @@ theorem byteswap_past_end_witness :
     Spec.byteswap (natToBits 24 0x010203) (.int 2) (some 0) (some 8) false = .ok (0, natToBits 24 0x010203) ∧
     (∃ r, Alg.byteswap (natToBits 17 0x15555) (.int 3) none none false = .ok (1, r) ∧ r.length = 24) ∧
     Spec.byteswap (natToBits 17 0x15555) (.int 3) none none false = .ok (0, natToBits 17 0x15555) := by
-  sorry
+  refine ⟨by decide, by decide, ⟨_, rfl, by decide⟩, by decide⟩
 
 theorem byteswap_length (l r : Bits) (f : Fmt) (s e : Option Int) (rep : Bool) (k : Nat)
     (h : Spec.byteswap l f s e rep = .ok (k, r)) : r.length = l.length := by
-  sorry
+  exact Byteswap.byteswap_length l r f s e rep k h
 
 /-- Frame: nothing outside `[a, z)` is altered — in fact nothing outside the `k` whole patterns. -/
 theorem byteswap_frame (l r : Bits) (f : Fmt) (s e : Option Int) (rep : Bool) (k a z : Nat)
     (h : Spec.byteswap l f s e rep = .ok (k, r)) (hv : validateSlice l.length s e = .ok (a, z)) :
     r.take a = l.take a ∧ r.drop z = l.drop z := by
-  sorry
+  exact Byteswap.byteswap_frame l r f s e rep k a z h hv
 
 /-- The return value: as many whole patterns as fit (with `repeat`), one if it fits (without), 0 for an empty pattern. -/
 theorem byteswap_count (l r : Bits) (f : Fmt) (s e : Option Int) (rep : Bool) (k a z : Nat) (sizes : List Nat)
@@ -80,25 +81,25 @@ theorem byteswap_count (l r : Bits) (f : Fmt) (s e : Option Int) (rep : Bool) (k
     k * (8 * sizes.sum) ≤ z - a ∧
     (rep = true → 8 * sizes.sum ≠ 0 → z - a < (k + 1) * (8 * sizes.sum)) ∧
     (rep = false → k ≤ 1) ∧ (8 * sizes.sum = 0 → k = 0 ∧ r = l) := by
-  sorry
+  exact Byteswap.byteswap_count l r f s e rep k a z sizes h hv hf
 
 /-- Swapping twice with the same arguments restores the content. -/
 theorem byteswap_involutive (l r : Bits) (f : Fmt) (s e : Option Int) (rep : Bool) (k : Nat)
     (h : Spec.byteswap l f s e rep = .ok (k, r)) : Spec.byteswap r f s e rep = .ok (k, l) := by
-  sorry
+  exact Byteswap.byteswap_involutive l r f s e rep k h
 
 /-- The default format reverses all whole bytes of the range. -/
 theorem byteswap_default (l : Bits) (s e : Option Int) (a z : Nat) (hv : validateSlice l.length s e = .ok (a, z))
     (h8 : 8 ≤ z - a) :
     Spec.byteswap l .none s e true =
       .ok (1, l.take a ++ revBytes (slc l a (a + 8 * ((z - a) / 8))) ++ l.drop (a + 8 * ((z - a) / 8))) := by
-  sorry
+  exact Byteswap.byteswap_default l s e a z hv h8
 
 theorem byteswap_errors (l : Bits) (f : Fmt) (s e : Option Int) (rep : Bool) :
     (validateSlice l.length s e = .error .value → Spec.byteswap l f s e rep = .error .value) ∧
     (∀ a z, validateSlice l.length s e = .ok (a, z) → fmtSizes f a z = .error .value →
       Spec.byteswap l f s e rep = .error .value) := by
-  sorry
+  exact Byteswap.byteswap_errors l f s e rep
 
 theorem fmtSizes_err_iff (f : Fmt) (a z : Nat) :
     fmtSizes f a z = .error .value ↔
@@ -107,7 +108,7 @@ theorem fmtSizes_err_iff (f : Fmt) (a z : Nat) :
       | .int k => k < 0
       | .sizes ks => ∃ k ∈ ks, k < 0
       | .str s => parseFmt s = none := by
-  sorry
+  exact Byteswap.fmtSizes_err_iff f a z
 
 /-! ### non-vacuity -/
 example : byteswapNoRepeatPastEnd (natToBits 24 0x010203) (.int 2) none none false = false ∧
